@@ -285,6 +285,17 @@ def render(repo: Path) -> str:
                       ('load_pyproject_toml', excepts(find_def(cls, 'load_pyproject_toml'))),
                       ('handle_path', excepts(find_def(cls, 'handle_path'))),
                       ('update', excepts(find_def(cls, 'update'))), ('init', excepts(init))]
+    # where the yaml parser object of `load_yaml` comes from: every `<receiver>.load(...)` call of the function - a receiver
+    # that is a plain name assigned INSIDE the function gives the assignment(s) (a parser per call), anything else
+    # (an attribute of self, a module-level name, a parameter) gives `<not local>: receiver`
+    ly = find_def(cls, 'load_yaml')
+    yaml_parser_origin = []
+    for n in ast.walk(ly):
+        if isinstance(n, ast.Call) and isinstance(n.func, ast.Attribute) and n.func.attr in ('load', 'load_all'):
+            recv = n.func.value
+            local = [ast.unparse(a) for a in ast.walk(ly) if isinstance(a, ast.Assign) and isinstance(recv, ast.Name)
+                     and any(isinstance(t, ast.Name) and t.id == recv.id for t in a.targets)]
+            yaml_parser_origin += local or ['<not local>: ' + ast.unparse(recv)]
     # Config.update: the whole body (docstring dropped), statement by statement, and every expression assigned to `difference`
     upd = find_def(cls, 'update')
     upd_body = [s for s in upd.body
@@ -375,6 +386,10 @@ def render(repo: Path) -> str:
         'def updateRaises : List String := [' + ', '.join(lean_str(a) for a in update_raises) + ']',
         '/-- the body of `Config.update`, statement by statement (`ast.unparse`; docstring and comments dropped). -/',
         'def updateBody : List String :=\n  [' + ',\n   '.join(lean_str(a) for a in update_body) + ']',
+        '',
+        '/-- `Config.load_yaml`: where the object whose `.load(file)` parses the file comes from - the assignment(s) to that',
+        '    name inside the function (a parser per call), or `<not local>: …` (an object that outlives the call). -/',
+        'def yamlParserOrigin : List String := [' + ', '.join(lean_str(a) for a in yaml_parser_origin) + ']',
         '',
         'end Pypyr.Generated.ConfigProps',
         '']
